@@ -281,22 +281,25 @@ def prefix_suffix(tokens, base_url):
 
 
 @descriptor('counter-style')
-@comma_separated_list
 def range(tokens):
     """``range`` descriptor validation."""
-    if len(tokens) == 1:
-        keyword = get_single_keyword(tokens)
-        if keyword == 'auto':
-            return 'auto'
-    elif len(tokens) == 2:
+    if get_single_keyword(tokens) == 'auto':
+        return ('auto',)
+    results = []
+    for part in split_on_comma(tokens):
+        part = remove_whitespace(part)
+        if len(part) != 2:
+            return
         values = []
-        for i, token in enumerate(tokens):
+        for i, token in enumerate(part):
             if get_keyword(token) == 'infinite':
                 values.append(inf if i else -inf)
             elif token.type == 'number' and token.is_integer:
                 values.append(token.int_value)
-        if len(values) == 2 and values[0] <= values[1]:
-            return tuple(values)
+        if len(values) != 2 or values[0] > values[1]:
+            return
+        results.append(tuple(values))
+    return tuple(results)
 
 
 @descriptor('counter-style', wants_base_url=True)
